@@ -355,7 +355,24 @@ class SimpleCorr:
     def run(self, pid, out, tier, seed, broken):
         d = workdir(pid)
         blocks = self.gen_blocks(pid, d, tier, seed)
-        impl, model, orc, st = self.run_cases(d, blocks, "main")
+        try:
+            impl, model, orc, st = self.run_cases(d, blocks, "main")
+        except RuntimeError as e:
+            if "harness" not in str(e):
+                raise
+            # the implementation took the harness process down (abort, stack overflow, panic outside catch_unwind):
+            # find one case that does it
+            culprit = None
+            for cid, lines in blocks[:400]:
+                try:
+                    self.run_cases(d, [(cid, lines)], "crash")
+                except RuntimeError:
+                    culprit = (cid, lines); break
+            body = culprit[1] if culprit else [str(e)[-500:]]
+            rp = vlib.write_replay(pid, self.kind, "the implementation crashes the harness process: " + str(e)[-200:], body)
+            out.coverage.update({"evaluations": len(blocks), "distinct_nontrivial": 0, "rule": self.rule, "samples": [body[:5]]})
+            out.violation("the implementation crashed the harness process on case %s" % (culprit[0] if culprit else "?"), rp, culprit is not None)
+            return
         bmap = dict(blocks)
         mine = [l for l in orc if (" " + pid + " ") in (" " + l + " ")]
         mine += ["- " + l for l in self.extra(pid, out, tier, seed, d)]
@@ -599,3 +616,320 @@ class Attr(SimpleCorr):
 
 
 REGISTRY["C14"] = Attr()
+
+
+# =====================================================================================
+# C16: the bundled reflection database (translator + exhaustive lookup correspondence + default instances)
+# =====================================================================================
+class Database:
+    """pre(): regenerate coq/Gen (Database.v through `rbxverif dbdump`, the tables through tools/translate.py).
+    run(): (1) both Rust copies of find_property_descriptors vs Db.find_desc_bin / find_desc_xml on the extracted
+    database, for every class x every property name of its chain; (2) every class's default instance through both
+    real codecs, and the name-closure probe; (3) the Coq-pinned name-roundtrip offenders against the implementation."""
+    rule = ("exhaustive, no sampling: one lookup case per database class with every property/default name occurring in its "
+            "superclass chain plus names occurring nowhere, plus unknown classes, through rbx_binary::verif::find_property_descriptors "
+            "and rbx_xml::verif::find_{canonical,serialized}_property_descriptor, compared line by line with the extracted Coq "
+            "lookups on the extracted Gen/Database.database; then for every class one instance with all serializable defaults of "
+            "its chain written and read back by rbx_binary and rbx_xml (values compared as bit patterns), and every serializing "
+            "non-migrating canonical property written alone and required to come back under its own name; non-trivial = the "
+            "lookup resolves to a descriptor")
+    assumptions = [
+        "Gen/Database.v is what rbx_reflection_database::get() returns, printed by harness/src/dbdump.rs (map keys = descriptor names, checked by the dump)",
+        "Gen/BinaryTypes.v and Gen/MigrationTables.v are regular-expression extractions of the Rust tables (tools/translate.py, fails closed)",
+        "rbx_reflector (generation of database.msgpack from a Roblox dump) is not modelled: the general lemmas apply to whatever database passes db_coherent",
+        "the Coq lookups are tied to the two Rust copies by this exhaustive differential run (hand-written model)",
+    ]
+
+    def pre(self, pid, out, tier, seed):
+        import translate
+        self.pre_broken = None
+        try:
+            res = translate.regenerate_for(pid)
+            out.coverage["translator"] = {k: (v if isinstance(v, str) else ("rewritten" if v else "unchanged")) for k, v in res.items()}
+            changed = any(v is True for v in res.values()) or "written" in str(res.get("Database.v", ""))
+            if changed:
+                ok, o = vlib.build_model()       # the extracted database must be the regenerated one
+                if not ok:
+                    self.pre_broken = "the extracted model no longer builds after regenerating coq/Gen:\n" + o[-1500:]
+        except Exception as e:                    # TranslateError and anything the translator trips over: a broken tie
+            self.pre_broken = "translator failed (source table not found or not understood): %s" % e
+
+    # ---- pieces
+    def lookups(self, d, tag, cases=None):
+        """returns (blocks, impl, model, oracle lines, stats)"""
+        cf = os.path.join(d, tag + ".cases")
+        if cases is None:
+            rc, o, _ = vlib.run([vlib.harness_bin(), "lookup-gen", "--out", cf], timeout=600)
+            if rc != 0:
+                raise RuntimeError("lookup-gen failed: " + o[-2000:])
+        else:
+            vlib.write_blocks(cf, cases)
+        obs, orc, st, mo = [os.path.join(d, tag + x) for x in (".impl", ".oracle", ".stats", ".model")]
+        rc, o, _ = vlib.run([vlib.harness_bin(), "lookup-run", cf, obs, orc, st], timeout=1200)
+        if rc != 0:
+            raise RuntimeError("harness lookup-run failed (rc=%d): %s" % (rc, o[-2000:]))
+        rc, o, _ = vlib.run([vlib.MODELRUN, "lookup", cf, mo], timeout=1200)
+        if rc != 0:
+            raise RuntimeError("modelrun lookup failed: " + o[-2000:])
+        return (vlib.read_blocks(cf), dict(vlib.read_blocks(obs)), dict(vlib.read_blocks(mo)),
+                [l.rstrip("\n") for l in open(orc) if l.strip()], json.load(open(st)))
+
+    def lookup_disagreements(self, blocks, impl, model):
+        out = []
+        for cid, lines in blocks:
+            qs = [l for l in lines if l.startswith("p ")]
+            cl = [l for l in lines if l.startswith("class ")]
+            io, mo = impl.get(cid, []), model.get(cid, [])
+            for k in range(max(len(io), len(mo), len(qs))):
+                a = io[k] if k < len(io) else "<missing>"
+                b = mo[k] if k < len(mo) else "<missing>"
+                if a != b:
+                    q = qs[k] if k < len(qs) else "?"
+                    out.append((cid, cl + [q], "lookup of `%s` in `%s`: implementation `%s` vs Coq model `%s`" % (q[2:], cid, a[:200], b[:200])))
+        return out
+
+    def defaults(self, d, tag, cls=None):
+        obs, orc, st = [os.path.join(d, tag + x) for x in (".obs", ".oracle", ".stats")]
+        rc, o, _ = vlib.run([vlib.harness_bin(), "dbdefaults-run", obs, orc, st] + (["--class", cls] if cls else []), timeout=3000)
+        if rc != 0:
+            raise RuntimeError("harness dbdefaults-run failed (rc=%d): %s" % (rc, o[-2000:]))
+        return [l.rstrip("\n") for l in open(orc) if l.strip()], json.load(open(st))
+
+    @staticmethod
+    def key_of(line):
+        """`<class> C16 <format> <kind> <prop>: ...` -> `<kind>:<class>.<prop>` (the key a known-findings entry names)"""
+        m = re.match(r"(\S+) C16 (bin|xml) (\S+) ([^:]*):", line)
+        return "%s:%s.%s" % (m.group(3), m.group(1), m.group(4)) if m else None
+
+    @staticmethod
+    def pinned_name_offenders():
+        text = vlib.strip_comments(open(os.path.join(vlib.COQ, "Properties", "C16.v")).read())
+        m = re.search(r"offenders_seras_back\s+Database\.database\s*=\s*\[(.*?)\]", text, re.S)
+        if not m:
+            return None
+        return sorted(set(re.findall(r'\(\s*"([^"]*)"\s*,\s*"([^"]*)"\s*\)', m.group(1))))
+
+    def run(self, pid, out, tier, seed, broken):
+        d = workdir(pid)
+        broken = getattr(self, "pre_broken", None) or broken
+        rc, o, _ = vlib.run([vlib.harness_bin(), "dbdump", "--stats"], timeout=120)
+        counts = dict(kv.split("=") for kv in o.strip().split()) if rc == 0 else {}
+        blocks, impl, model, lorc, lst = self.lookups(d, "lookup")
+        dis = self.lookup_disagreements(blocks, impl, model)
+        dorc, dst = self.defaults(d, "defaults")
+        known = vlib.known_keys(pid)
+        unlisted, seen_known = [], {}
+        beyond = []
+        for l in lorc + dorc:
+            key = self.key_of(l)
+            if " name-changed " in l:
+                # a property whose serialized name decodes to ANOTHER canonical property: C16's text (coherence of the
+                # database, lookups cannot fail, default instances round-trip) does not forbid it; it is a matter of
+                # C01/C02 ("under its canonical name") and is reported there.  Kept here as an observation only.
+                beyond.append(l)
+                continue
+            if key and key in known:
+                seen_known.setdefault(key, l)
+            else:
+                unlisted.append(l)
+        for key, l in seen_known.items():
+            out.known.append("key=%s %s (reproduced: %s)" % (key, known[key], l[:240]))
+        # the model-side list of name-roundtrip offenders (pinned by a theorem) must be the implementation's
+        impl_names = sorted({tuple(self.key_of(l).split(":", 1)[1].split(".", 1)) for l in dorc if " name-changed " in l and self.key_of(l)})
+        pinned = self.pinned_name_offenders()
+        out.coverage.update({
+            "database": {k: int(v) for k, v in counts.items()},
+            "exhaustive": "all classes, property descriptors, enums and default values of the loaded database (no sampling)",
+            "traces_validated_against_impl": lst.get("queries", 0) + dst.get("classes", 0) + dst.get("name_probe_properties", 0),
+            "evaluations": lst.get("queries", 0),
+            "distinct_nontrivial": lst.get("distinct_nontrivial", 0),
+            "rule": self.rule,
+            "samples": [{"case": blocks[k][0], "lines": blocks[k][1][:6]} for k in (0, len(blocks) // 2) if k < len(blocks)],
+            "generator": {"lookups": lst, "default_instances": dst},
+            "corpus_cases": 0, "disagreements": len(dis), "oracle_failures": len(lorc) + len(dorc),
+            "known_findings_reproduced": sorted(seen_known),
+            "observations_beyond_the_property": beyond[:8],
+            "name_roundtrip_offenders": {"implementation": [list(x) for x in impl_names], "coq_pinned": [list(x) for x in (pinned or [])]},
+        })
+        out.assumptions += self.assumptions
+        if unlisted:
+            l = unlisted[0]
+            cls = l.split(" ")[0]
+            rp = vlib.write_replay(pid, "dbdefaults" if l in dorc else "lookup-oracle", "implementation oracle: " + l,
+                                   ["class " + cls] + [x for x in unlisted if x.split(" ")[0] == cls][:40])
+            out.violation("the implementation violates %s: %s (%d failing lines, %d not listed as known)" % (pid, l, len(lorc) + len(dorc), len(unlisted)), rp, True)
+        elif dis:
+            cid, case, text = dis[0]
+            rp = vlib.write_replay(pid, "lookup", text, case, broken="correspondence lookup (Db.find_desc_bin / find_desc_xml vs both Rust copies of find_property_descriptors)")
+            out.violation("correspondence broken (%d of %d lookups differ): %s" % (len(dis), lst.get("queries", 0), text), rp, True)
+        elif pinned is not None and [tuple(x) for x in pinned] != impl_names and not broken:
+            text = "name-roundtrip offenders: Coq theorem pins %s, the implementation shows %s" % (pinned, impl_names)
+            rp = vlib.write_replay(pid, "names", text, [text], broken="C16_bundled_names_roundtrip_refuted vs the name-closure probe")
+            out.violation("correspondence broken: " + text, rp, False)
+        elif broken:
+            rp = vlib.write_replay(pid, "proof", broken.split("\n")[0], broken.split("\n"), broken=broken.split("\n")[0])
+            out.violation(broken.split("\n")[0], rp, False)
+
+    def replay(self, pid, path):
+        meta, body = vlib.read_replay(path)
+        d = workdir(pid)
+        vlib.build_harness(); vlib.build_model()
+        kind = meta.get("kind")
+        body = [l for l in body if l.strip()]
+        if kind == "lookup":
+            blocks, impl, model, lorc, lst = self.lookups(d, "replay", [("x", body)])
+            dis = self.lookup_disagreements(blocks, impl, model)
+            for l in lorc:
+                log("oracle: " + l)
+            for c, case, t in dis:
+                log("disagreement: " + t)
+            return 1 if (lorc or dis) else 0
+        if kind in ("dbdefaults", "lookup-oracle"):
+            cls = body[0][6:] if body and body[0].startswith("class ") else None
+            if kind == "dbdefaults":
+                lines, _ = self.defaults(d, "replay", cls)
+            else:
+                blocks, impl, model, lines, lst = self.lookups(d, "replay")
+                lines = [l for l in lines if l.split(" ")[0] == cls]
+            known = vlib.known_keys(pid)
+            bad = [l for l in lines if self.key_of(l) not in known]
+            for l in bad:
+                log("oracle: " + l)
+            return 1 if bad else 0
+        log("replay names a broken obligation, not an input: " + meta.get("broken", meta.get("what", "")))
+        return 1
+
+
+REGISTRY["C16"] = Database()
+
+
+# =====================================================================================
+# C13: decoders never panic or hang; truncation and I/O faults surface as errors
+#   (i) implementation-side exercise `fault-run` (reader delivery, sink failure, XML decoder, process-level
+#   behaviour: no Gallina model can carry these, the clause is labelled partial); (ii) the BinBytes
+#   correspondence (Coq decoder model vs implementation on mutated files) when that handler exists.
+# =====================================================================================
+class _SubOutcome:
+    """collects a sub-stage's coverage separately; violations / known findings go to the real outcome"""
+    def __init__(self, out):
+        self.out, self.pid, self.coverage = out, out.pid, {}
+        self.assumptions, self.known = out.assumptions, out.known
+
+    def violation(self, what, replay, found_input=True):
+        self.out.violation(what, replay, found_input)
+
+
+class Faults:
+    RULE = ("implementation-side exercise of rbx_binary (None/LZ4/Zstd), rbx_xml (default and ReadUnknown options) and the attribute codec, "
+            "every decode/encode in a forked worker under catch_unwind with a panic hook (file:line + message), a counting global allocator "
+            "(largest request / peak live bytes per decode; requests above 1 GiB refused; RLIMIT_AS backstop), an 8 MiB job stack and a 20 s "
+            "watchdog: (a) truncation of each of the 13 hand-made DOMs x 4 encodings + 8 attribute blobs at EVERY byte offset must be Err; "
+            "(b) decoding through readers that deliver 1 byte / random sizes / inject ErrorKind::Interrupted must equal the slice reader's outcome "
+            "(valid files and mutated ones); (c) a sink failing with io::Error at EVERY output offset (Ok(0) and short-write sinks too) must give "
+            "Err, never Ok or a panic; (d) mutation streams: bit flips, byte substitutions, u32 edits {0,1,old-1,old+1,2^24,2^31-1,2^32-1} at every "
+            "container field and every payload offset, chunk deletion/duplication/swap/rename/payload cuts/cross-file insertion, 37 hand-crafted "
+            "binary files, XML: every text node x ~50 hostile texts, every attribute value x 15 hostile values, every tag x delete/duplicate/swap/"
+            "14 renames, 22 special documents (entity bombs, UTF-16, NULs), random bytes; nesting 200..50000 (XML) / 200..200000 (binary PRNT chains), "
+            "decode and serialize.  Random choices derive from VERIF_SEED; non-trivial = non-empty input; distinct by (format, input bytes)")
+
+    def fault_run(self, d, tier, seed):
+        obs, orc, st = [os.path.join(d, "fault" + x) for x in (".obs", ".oracle", ".stats")]
+        for f in (obs, orc, st):
+            if os.path.exists(f):
+                os.remove(f)
+        rc, o, dt = vlib.run([vlib.harness_bin(), "fault-run", "--seed", str(seed), "--tier", tier, obs, orc, st], timeout=3400)
+        if rc != 0 or not os.path.exists(st):
+            raise RuntimeError("harness fault-run failed (rc=%d): %s" % (rc, o[-2000:]))
+        return [l.rstrip("\n") for l in open(obs)], [l.rstrip("\n") for l in open(orc)], json.load(open(st))
+
+    def run(self, pid, out, tier, seed, broken):
+        d = workdir(pid)
+        # ---- (ii) model correspondence on mutated binary files, if that handler is present
+        sub = None
+        try:
+            handler = BinBytes()
+        except NameError:
+            handler = None
+        if handler is not None:
+            sub = _SubOutcome(out)
+            handler.run(pid, sub, tier, seed, broken)
+            out.coverage["correspondence_binbytes"] = sub.coverage
+            broken = None           # reported by that stage if nothing else failed
+        # ---- (i) the fault harness
+        try:
+            obs, orc, st = self.fault_run(d, tier, seed)
+        except RuntimeError as e:
+            rp = vlib.write_replay(pid, "fault-harness", "the fault harness did not complete", str(e).split("\n"), broken="rbxverif fault-run")
+            out.violation("the C13 fault harness did not complete: " + str(e).split("\n")[0][:300], rp, False)
+            return
+        known = vlib.known_keys(pid)
+        keys = st.get("keys", {})
+        reproduced, unlisted = [], []
+        for key in sorted(keys):
+            info = keys[key]
+            if key in known:
+                reproduced.append(key)
+                out.known.append("key=%s %s (reproduced: %d inputs, smallest %d bytes, case %s: %s)"
+                                 % (key, known[key], info["count"], info["len"], info["case"], info["message"][:160]))
+            else:
+                unlisted.append(key)
+                what = "%s: %s" % (key, info["message"][:400])
+                rp = vlib.write_replay(pid, "fault", what, [info["hex"], info["format"], " ".join(sorted(info.get("sweeps", {})))])
+                out.violation("the implementation violates C13 (%d inputs, smallest %d bytes, case %s): %s"
+                              % (info["count"], info["len"], info["case"], what), rp, True)
+        sweeps = st.get("sweeps", {})
+        sub_ev = (sub.coverage.get("evaluations", 0) if sub else 0)
+        sub_dn = (sub.coverage.get("distinct_nontrivial", 0) if sub else 0)
+        out.coverage.update({
+            "evaluations": st["evaluations"] + sub_ev,
+            "traces_validated_against_impl": sub_ev,
+            "distinct_nontrivial": st["distinct_nontrivial"] + sub_dn,
+            "rule": self.RULE,
+            "samples": [{"sweep": l.split(" | ")[0]} for l in obs[:3]] + [{"failure": l[:300]} for l in orc[:3]],
+            "fault_sweeps": {name: {"jobs": s["jobs"], "distinct": s["distinct"], "failing": s["failing"], "exhaustive": s["exhaustive"],
+                                    "classes": dict(sorted(s["classes"].items(), key=lambda kv: -kv[1])[:8])} for name, s in sweeps.items()},
+            "exhaustive": True,
+            "exhaustive_sweeps": sorted(n for n, s in sweeps.items() if s["exhaustive"]),
+            "fixed_set": st.get("fixed_set", {}),
+            "fault_wall_s": st.get("wall_s"), "fault_workers": st.get("workers"),
+            "failure_keys": {k: keys[k]["count"] for k in sorted(keys)},
+            "known_findings_reproduced": reproduced, "unlisted_failure_keys": unlisted,
+        })
+        out.assumptions += [
+            "the reader-delivery, sink-failure, XML-decoder, stack-depth and allocation clauses of C13 are EXERCISED on the implementation, not proven "
+            "(std::io adapters, xml-rs, lz4/zstd and the process environment have no Gallina model); `exhaustive` refers to every byte offset of the "
+            "fixed file set only",
+            "allocation probe: a request counts as unrelated to the input size above 4 MiB + 4096 x input length; single requests above 1 GiB are refused "
+            "so that the abort is observed in a forked worker instead of exhausting the machine",
+            "stack depth is measured on an 8 MiB thread stack with the harness build profile (opt-level 1); a smaller stack or an unoptimised build overflows earlier",
+            "panic keys are derived from the source text at the reported file:line of /repo (robust to line shifts), allocation keys from the first rbx_* frame of the backtrace",
+        ]
+        if broken and not out.violations:
+            rp = vlib.write_replay(pid, "proof", broken.split("\n")[0], broken.split("\n"), broken=broken.split("\n")[0])
+            out.violation(broken.split("\n")[0], rp, False)
+
+    def replay(self, pid, path):
+        meta, body = vlib.read_replay(path)
+        kind = meta.get("kind")
+        if kind != "fault":
+            try:
+                handler = BinBytes()
+            except NameError:
+                handler = None
+            if handler is not None and kind == getattr(handler, "kind", None):
+                return handler.replay(pid, path)
+            log("replay names a broken obligation, not an input: " + meta.get("broken", meta.get("what", "")))
+            return 1
+        vlib.build_harness()
+        d = workdir(pid)
+        hexfile = os.path.join(d, "replay.hex")
+        with open(hexfile, "w") as f:
+            f.write(body[0].strip() + "\n")
+        fmt = body[1].strip()
+        log("replaying %d-byte payload, format %s (%s)" % (0 if body[0].strip() == "-" else len(body[0].strip()) // 2, fmt, meta.get("what", "")[:200]))
+        rc, o, _ = vlib.run([vlib.harness_bin(), "fault-replay", fmt, "@" + hexfile], timeout=600)
+        log(o.rstrip())
+        return 1 if rc != 0 else 0
+
+
+REGISTRY["C13"] = Faults()
